@@ -111,7 +111,11 @@ class C16(core.Check):
                 if res.kind != 'ACCEPT' or layout.overlaps(res)[0] != 'ACCEPT':
                     continue
                 src = ''.join(l['text'] + '\n' for l in lines)
-                ids = {id(l): ('p.asm', k + 1) for k, l in enumerate(lines)}
+                ids = {}
+                ln_no = 1
+                for l in lines:
+                    ids[id(l)] = ('p.asm', ln_no)
+                    ln_no += l['text'].count('\n') + 1          # a few generated entries span several source lines
                 if res.predefined_data:
                     tags.add('predefined-data')
                 tags.add('width:16')
